@@ -215,4 +215,32 @@ example : ∀ g' out b, take E3 200 40 (Gen.new w3G) [] = some (g', out, b) → 
   fun g' out b h => C02_HS_nodup E3 (fun _ => rfl) 200 40 g' out b h
 end Nodup
 
+/-! ### finding: heap search stops early on a recursive grammar (re-entrant `query`) -/
+section Reentrant
+open PS.HS
+def rInt : Ty := .base "t"
+def rF : Sym := Sym.prim "F" (.arrow rInt (.arrow rInt rInt))
+def rg : Sym := Sym.prim "g" (.arrow rInt rInt)
+def rb : Sym := Sym.prim "b" rInt
+def rc : Sym := Sym.prim "c" rInt
+def rn (k : Nat) : NT Nat Unit := (rInt, (k, ()))
+/-- `CFG.infinite(DSL{F : t1 -> t1 -> t0, b : t0, g : t0 -> t1, c : t1}, t0, n_gram=2)` -/
+def rG2 : TT Nat Unit := ⟨rn 0, [(rn 0, [(rb, ([], ())), (rF, ([(rInt, 1), (rInt, 2)], ()))]),
+  (rn 1, [(rc, ([], ())), (rg, ([(rInt, 3)], ()))]), (rn 2, [(rc, ([], ())), (rg, ([(rInt, 3)], ()))]),
+  (rn 3, [(rb, ([], ())), (rF, ([(rInt, 1), (rInt, 2)], ()))])]⟩
+def rW2 : AList (NT Nat Unit) (AList Sym Rat) := [(rn 0, [(rb, 1/64), (rF, 63/64)]), (rn 1, [(rc, 1/2), (rg, 1/2)]),
+  (rn 2, [(rc, 1/2), (rg, 1/2)]), (rn 3, [(rb, 1/64), (rF, 63/64)])]
+def rE2 : Env Nat Unit Rat := { G := rG2, W := rW2, ops := probOps 0, filter := fun _ => true }
+def rLost : Prog := .node rF [.node rg [.node rF [.node rc [], .node rc []]], .node rc []]
+
+/-- the language is infinite, heap search stops after 5 programs and never yields the member
+    `(F (g (F c c)) c)`: `query(S3, (F c c))` is issued while `__add_successors__((F c c), S3)` is
+    still running, finds the heap of `S3` empty and records "no successor".  Same output on the
+    implementation. -/
+theorem finding_C02_HS_reentrant :
+    contains rG2 rLost = true ∧
+    (take rE2 300 8 (Gen.new rG2) []).map (fun r => (r.2.1.length, r.2.2, r.2.1.contains rLost)) = some (5, true, false) := by
+  decide +kernel
+end Reentrant
+
 end PS.C02HS
